@@ -10,7 +10,7 @@ From NV Require Import Base.Util Base.IntTy Base.FloatBits Base.Float Base.Expr
      Macro.Surface Macro.Ast Sem.Guard Sem.Value Sem.Eval Sem.Bytes Sem.ArbFloat Sem.ArbFloatDecide
      Spec.GuardSpec
      Lemmas.GuardLemmas Lemmas.ArbFloatLemmas Lemmas.ArbFloatValid Lemmas.ArbFloatExcl
-     Lemmas.ArbFloatExcl2 Lemmas.ArbFloatExcl3.
+     Lemmas.ArbFloatExcl2 Lemmas.ArbFloatExcl3 Lemmas.ArbFloatExcl4.
 Local Open Scope Z_scope.
 
 (* ====================================================================================== *)
@@ -768,3 +768,141 @@ Example decide_f32_open_absorbed_panics (lib : fnlib) :
   let d := dec_ex (FFloat false) [] [VGreater (BLit 1115684864); VLess (BLit 1115815936)] in
   arb_float lib d [] = OPanic.
 Proof. intros d. apply arb_float_decide_panics_sound. exact decide_f32_open_absorbed. Qed.
+
+(* ====================================================================================== *)
+(* 7. The extension [arb_float_decide_ext]: overflow witnesses (Lemmas/ArbFloatExcl4.v)    *)
+(* ====================================================================================== *)
+
+Lemma dec_max_bytes_eq (is64 : bool) : dec_max_bytes is64 = max_finite_bytes is64.
+Proof. reflexivity. Qed.
+
+Lemma overflow_witness_std_sound (lib : fnlib) (d : decl) (is64 : bool) (vs : list validator) (w : bytes) :
+  d_family d = FFloat is64 -> d_sans d = [] -> d_validation d = Some (RVStandard vs) ->
+  arb_float_overflow_witness_std is64 d vs = Some w ->
+  arb_float lib d w = OPanic /\ bytes_ok w = true.
+Proof.
+  intros Hf Hs Hv H. unfold arb_float_overflow_witness_std in H.
+  destruct (arb_nf vs) as [[[fin lo] hi]|] eqn:Hnf; [|discriminate H].
+  destruct fin; [|discriminate H].
+  pose proof (proj2 (arb_nf_finite_iff vs _ _ _ Hnf) eq_refl) as Hin.
+  pose proof (arb_nf_fboundaries d vs _ _ _ Hnf) as Hfb.
+  destruct lo as [[li bl]|], hi as [[ui bu]|]; try discriminate H; cbv beta iota zeta in H;
+    cbn [nf_fb] in Hfb; rewrite dec_max_finite_eq, dec_max_bytes_eq in H.
+  - match type of H with (if ?c then _ else _) = _ => destruct c eqn:Hc; [|discriminate H] end.
+    inversion H; subst w. apply andb_true_iff in Hc. destruct Hc as [HL HM]. apply negb_true_iff in HM.
+    split; [|exact (bytes_ok_max_finite is64)].
+    exact (arb_float_finite_lower_overflow_panic_in lib d is64 vs _ _ _ Hf Hs Hv Hin Hfb HM
+             (arb_uint_max_finite is64)).
+  - match type of H with (if ?c then _ else _) = _ => destruct c eqn:Hc; [|discriminate H] end.
+    inversion H; subst w. apply andb_true_iff in Hc. destruct Hc as [HU HM]. apply negb_true_iff in HM.
+    split; [|exact (bytes_ok_max_finite is64)].
+    exact (arb_float_finite_upper_overflow_panic_in lib d is64 vs _ _ _ Hf Hs Hv Hin Hfb HU HM
+             (arb_uint_max_finite is64)).
+Qed.
+
+Lemma overflow_witness_sound (lib : fnlib) (d : decl) (w : bytes) :
+  arb_float_overflow_witness d = Some w -> arb_float lib d w = OPanic /\ bytes_ok w = true.
+Proof.
+  intros H. unfold arb_float_overflow_witness in H.
+  destruct (d_family d) as [| tn t | is64 | tyname] eqn:Hf; try discriminate H.
+  destruct (d_sans d) as [|s ss] eqn:Hs; [|discriminate H].
+  destruct (d_validation d) as [[vs|x e]|] eqn:Hv; try discriminate H.
+  exact (overflow_witness_std_sound lib d is64 vs w Hf Hs Hv H).
+Qed.
+
+Lemma overflow_witness_bytes_ok (d : decl) (w : bytes) :
+  arb_float_overflow_witness d = Some w -> bytes_ok w = true.
+Proof.
+  intros H. unfold arb_float_overflow_witness in H.
+  destruct (d_family d) as [| tn t | is64 | tyname]; try discriminate H.
+  destruct (d_sans d) as [|s ss]; [|discriminate H].
+  destruct (d_validation d) as [[vs|x e]|]; try discriminate H.
+  unfold arb_float_overflow_witness_std in H.
+  destruct (arb_nf vs) as [[[[|] [[li bl]|]] [[ui bu]|]]|]; try discriminate H; cbv beta iota zeta in H;
+    match type of H with (if ?c then _ else _) = _ => destruct c; [|discriminate H] end;
+    inversion H; rewrite dec_max_bytes_eq; apply bytes_ok_max_finite.
+Qed.
+
+(* the extension changes AVUnknown answers only *)
+Lemma arb_float_decide_ext_refines (d : decl) :
+  arb_float_decide d <> AVUnknown -> arb_float_decide_ext d = arb_float_decide d.
+Proof. unfold arb_float_decide_ext. destruct (arb_float_decide d); congruence. Qed.
+
+Lemma arb_float_decide_ext_total (d : decl) :
+  arb_float_decide_ext d = AVTotal -> arb_float_decide d = AVTotal.
+Proof.
+  unfold arb_float_decide_ext. destruct (arb_float_decide d); try congruence.
+  destruct (arb_float_overflow_witness d); discriminate.
+Qed.
+
+(* D1, D2 and the byte-string property for the extended procedure: same statements *)
+Theorem arb_float_decide_ext_total_sound :
+  forall (lib : fnlib) (d : decl) (bs : bytes),
+    arb_float_decide_ext d = AVTotal -> bytes_ok bs = true ->
+    exists v, arb_float lib d bs = OOk v /\ spec_valid lib d v = true.
+Proof.
+  intros lib d bs H Hb.
+  exact (arb_float_decide_total_sound lib d bs (arb_float_decide_ext_total d H) Hb).
+Qed.
+Print Assumptions arb_float_decide_ext_total_sound.
+
+Theorem arb_float_decide_ext_panics_sound :
+  forall (lib : fnlib) (d : decl) (bs : bytes),
+    arb_float_decide_ext d = AVPanicsOn bs -> arb_float lib d bs = OPanic.
+Proof.
+  intros lib d bs H. unfold arb_float_decide_ext in H.
+  destruct (arb_float_decide d) as [|bs'|] eqn:E; [discriminate H | |].
+  - inversion H; subst bs'. exact (arb_float_decide_panics_sound lib d bs E).
+  - destruct (arb_float_overflow_witness d) as [w|] eqn:W; [|discriminate H].
+    inversion H; subst w. exact (proj1 (overflow_witness_sound lib d bs W)).
+Qed.
+Print Assumptions arb_float_decide_ext_panics_sound.
+
+Theorem arb_float_decide_ext_panics_bytes_ok :
+  forall (d : decl) (bs : bytes), arb_float_decide_ext d = AVPanicsOn bs -> bytes_ok bs = true.
+Proof.
+  intros d bs H. unfold arb_float_decide_ext in H.
+  destruct (arb_float_decide d) as [|bs'|] eqn:E; [discriminate H | |].
+  - inversion H; subst bs'. exact (arb_float_decide_panics_bytes_ok d bs E).
+  - destruct (arb_float_overflow_witness d) as [w|] eqn:W; [|discriminate H].
+    inversion H; subst w.
+    exact (overflow_witness_bytes_ok d bs W).
+Qed.
+
+(* f32: finite, less_or_equal = -3.0e38: -MAX + -3.0e38 overflows; the bytes of MAX panic *)
+Example decide_ext_f32_upper_overflow :
+  arb_float_decide_ext (dec_ex (FFloat false) [] [VFinite; VLessOrEqual (BLit 4284688930)])
+  = AVPanicsOn [255; 255; 127; 127].
+Proof. vm_compute. reflexivity. Qed.
+
+Example decide_ext_f32_upper_overflow_panics (lib : fnlib) :
+  let d := dec_ex (FFloat false) [] [VFinite; VLessOrEqual (BLit 4284688930)] in
+  arb_float lib d [255; 255; 127; 127] = OPanic.
+Proof. intros d. apply arb_float_decide_ext_panics_sound. exact decide_ext_f32_upper_overflow. Qed.
+
+(* f32: greater_or_equal = 3.0e38, finite; f64: finite, greater_or_equal = MAX; f64: less_or_equal = -MAX,
+   finite.  (With an EXCLUSIVE bound an overflowing sum means a bound so large that the delta is absorbed
+   at it: [arb_float_decide] already answers AVPanicsOn [] there.) *)
+Example decide_ext_overflow_others :
+  arb_float_decide_ext (dec_ex (FFloat false) [] [VGreaterOrEqual (BLit 2137205282); VFinite])
+  = AVPanicsOn [255; 255; 127; 127] /\
+  arb_float_decide_ext (dec_ex (FFloat true) [] [VFinite; VGreaterOrEqual (BLit 9218868437227405311)])
+  = AVPanicsOn [255; 255; 255; 255; 255; 255; 239; 127] /\
+  arb_float_decide_ext (dec_ex (FFloat true) [] [VLessOrEqual (BLit 18442240474082181119); VFinite])
+  = AVPanicsOn [255; 255; 255; 255; 255; 255; 239; 127].
+Proof. vm_compute. repeat split; reflexivity. Qed.
+
+(* the answers of [arb_float_decide] that are not AVUnknown are kept *)
+Example decide_ext_keeps :
+  arb_float_decide_ext (dec_ex (FFloat true) [] [VGreaterOrEqual (BLit 0); VLess (BLit 4607182418800017408)])
+  = AVTotal /\
+  arb_float_decide_ext (dec_ex (FFloat false) [] [VFinite; VGreater (BLit 1115684864)]) = AVPanicsOn [].
+Proof. vm_compute. split; reflexivity. Qed.
+
+(* the same case run on the concrete library of the runner: the verdict, and the generator itself *)
+From NV Require Run.Runner.
+Example decide_ext_f32_upper_overflow_the_lib :
+  let d := dec_ex (FFloat false) [] [VFinite; VLessOrEqual (BLit 4284688930)] in
+  arb_float_decide_ext d = AVPanicsOn [255; 255; 127; 127] /\
+  arb_float (Run.Runner.the_lib d) d [255; 255; 127; 127] = OPanic.
+Proof. vm_compute. split; reflexivity. Qed.
